@@ -96,8 +96,8 @@ theorem nodup_insert_fresh (ids : List Nat) (j fresh : Nat) (hn : ids.Nodup) (hf
     · have := hf x h; omega
 
 /-- `hostlist_delete_nth` keeps the record identities distinct -/
-theorem deleteNthE_ids (cfg : Cfg) (e : EL) (n : Nat) (hid : e.IdsOk) : (deleteNthE cfg e n).IdsOk := by
-  unfold deleteNthE
+theorem deleteNthE0_ids (cfg : Cfg) (e : EL) (n : Nat) (hid : e.IdsOk) : (deleteNthE0 cfg e n).IdsOk := by
+  unfold deleteNthE0
   generalize hres : deleteNthRs e.nextId e.rs n 0 0 = res
   obtain ⟨rs', c⟩ := res
   cases c with
@@ -174,6 +174,12 @@ theorem deleteNthE_ids (cfg : Cfg) (e : EL) (n : Nat) (hid : e.IdsOk) : (deleteN
       rw [← h1]
       exact List.mem_map.mpr ⟨o, ho, rfl⟩
 
+theorem deleteNthE_ids (cfg : Cfg) (e : EL) (n : Nat) (hid : e.IdsOk) : (deleteNthE cfg e n).IdsOk := by
+  obtain ⟨h1, _, h3, _⟩ := deleteNthE_fields cfg e n
+  have h0 := deleteNthE0_ids cfg e n hid
+  unfold EL.IdsOk at h0 ⊢
+  rw [h1, h3]; exact h0
+
 /-! ### no iterator appears from nowhere -/
 theorem deleteRange_its (cfg : Cfg) (e : EL) (n : Nat) (h : e.its = []) : (deleteRange cfg e n).its = [] := by
   unfold deleteRange
@@ -187,7 +193,8 @@ theorem insertRange_its (e : EL) (r : HRange) (n : Nat) (h : e.its = []) : (inse
   · simp [h]
 
 theorem deleteNthE_its (cfg : Cfg) (e : EL) (n : Nat) (h : e.its = []) : (deleteNthE cfg e n).its = [] := by
-  unfold deleteNthE
+  refine (deleteNthE_fields cfg e n).2.2.2 ?_
+  unfold deleteNthE0
   generalize deleteNthRs e.nextId e.rs n 0 0 = res
   obtain ⟨rs', c⟩ := res
   cases c with
